@@ -69,6 +69,10 @@ pub fn case_inputs(seed: u64, i: u64) -> Case {
             opts.extra_sync_after.push(rng.usize(1, total.max(1)));
         }
     }
+    if rng.chance(1, 6) {
+        opts.extra_sync_after.push(0);
+    }
+    opts.empty_splitters = rng.chance(1, 6);
     Case { oversized: p.capacity < maxc, p, set, opts, pseed: rng.next(), per_mille: *rng.pick(&[0u64, 100, 400, 800]) }
 }
 
@@ -185,6 +189,12 @@ pub fn child(args: &Args, rep: &mut Report) -> i32 {
     if !case.opts.extra_sync_after.is_empty() {
         rep.count("runs_with_explicit_sync_and_flush", 1);
     }
+    if case.opts.extra_sync_after.contains(&0) {
+        rep.count("runs_with_a_sync_round_before_the_first_push", 1);
+    }
+    if case.opts.empty_splitters {
+        rep.count("runs_with_an_empty_splitter_set", 1);
+    }
     rep.count(if case.p.single_file { "runs_single_file_mode" } else { "runs_multi_file_mode" }, 1);
     if i % 40 == 0 {
         rep.sample(jobj(&[("case_detail", case_json(&case, args, i)), ("events", log.len().to_string())]));
@@ -201,6 +211,7 @@ fn case_json(case: &Case, args: &Args, i: u64) -> String {
         ("params", case.p.json()),
         ("input", case.set.brief()),
         ("explicit_sync_after_contigs", vcommon::jnums(&case.opts.extra_sync_after)),
+        ("empty_splitter_set", case.opts.empty_splitters.to_string()),
         ("perturbation", jstr(&format!("{}:{}", case.pseed, case.per_mille))),
     ])
 }
